@@ -159,8 +159,9 @@ def gen_malformed(rng, good):
     k = rng.randrange(5)
     if k == 0:                                # no terminating dot line
         return b"".join(l + b"\n" for l in lines) or b"=a:b:1:2:/h:::\n"
-    if k == 1:                                # a line with too few fields
-        lines.insert(rng.randint(0, len(lines)), b"=short:user:1000:1000:/home:-")
+    if k == 1:                                # a line with too few fields (1..6 of the 7 colons)
+        f = [b"short", b"user", b"1000", b"1000", b"/home", b"-", b"ext", b""]
+        lines.insert(rng.randint(0, len(lines)), rng.choice([b"=", b"+"]) + b":".join(f[:rng.randint(2, 7)]))
     elif k == 2:                              # a line without any colon
         lines.insert(rng.randint(0, len(lines)), b"=nocolon")
     elif k == 3:                              # NUL in a line
@@ -263,10 +264,9 @@ class Box:
         os.chown(d + "/%d" % MESSNUM, sandbox.uid("q"), sandbox.gid("q"))
         os.chown(self.home + "/alias", sandbox.uid("a"), 0)
         self.rec = self.base + "/rec"
-        self.asan = self.base + "/asan"
-        for d in (self.rec, self.asan):
-            os.mkdir(d)
-            os.chmod(d, 0o1777)
+        self.stderr = []
+        os.mkdir(self.rec)
+        os.chmod(self.rec, 0o1777)
         self.clock = self.base + "/clock"
         with open(self.clock, "wb") as f:
             f.write(b"\0" * 4096)
@@ -277,7 +277,8 @@ class Box:
 
     def env(self):
         e = self.b.env(self.home)
-        e["ASAN_OPTIONS"] = e.get("ASAN_OPTIONS", "") + ":log_path=%s/r" % self.asan
+        # (ASan's log_path cannot be combined with the shim; sanitizer reports are taken from stderr: a
+        # delivery child still has qmail-lspawn's stderr while it reads users/cdb)
         e.update({"LD_PRELOAD": os.path.join(core.VERIF, "bin/nqshim.so"), "NQV_PASSWD": self.passwd,
                   "NQV_REC": self.rec, "NQV_TRACE": "i", "NQV_LOG": self.log, "NQV_CLOCK": self.clock,
                   "NQV_QL_OUT": QL_OUT.decode()})
@@ -287,6 +288,7 @@ class Box:
         rc, out, err = core.run_with_watchdog([self.home + "/bin/qmail-newu"], 60, env=self.env())
         if rc is None:
             rc, out, err = core.run_with_watchdog([self.home + "/bin/qmail-newu"], 60, env=self.env())
+        self.stderr = [err.decode("latin1")] if (b"Sanitizer" in err or b"runtime error" in err) else []
         return rc, err
 
     def set_getpw(self, kind):
@@ -303,11 +305,7 @@ class Box:
             os.chmod(p, 0o755)
 
     def sanitizer_reports(self):
-        out = []
-        for f in os.listdir(self.asan):
-            with open(os.path.join(self.asan, f), "r", errors="replace") as fh:
-                out.append(fh.read())
-            os.unlink(os.path.join(self.asan, f))
+        out, self.stderr = self.stderr, []
         return out
 
     def lspawn(self, locals_, domain=b"local.test"):
@@ -330,6 +328,9 @@ class Box:
                 break
         if rc is None:
             return None, None, None, "qmail-lspawn watchdog"
+        self.stderr = [err.decode("latin1")] if (b"Sanitizer" in err or b"runtime error" in err) else []
+        if self.stderr and rc != 0:
+            return {}, {}, {}, None
         if rc != 0 or len(out) < 1:
             return None, None, None, "qmail-lspawn rc=%s stderr=%r" % (rc, err[-300:])
         reports = {}
@@ -445,8 +446,7 @@ def judge(res, box, ctx, locals_, expect, reports, records, ev, domain, tag, cho
         _, t, uid, gid = exp
         if not recs:
             key = "C11/%s/expected-delivery-deferred" % tag
-            ch = chosen.get(idx)
-            if ch is not None and ch.kind == b"+" and ch.loc[-1:].isupper():
+            if chosen.get("entries") is not None and upper_wild_defect(chosen["entries"], local, rep, recs):
                 key = "C11/assign/wildcard-uppercase-last-char-ignored"
             res.violate(key, "model: deliver as %s (%s) but report is %r" % (core.hx(t.user), t.via, rep[:60]), wit)
             continue
@@ -456,8 +456,7 @@ def judge(res, box, ctx, locals_, expect, reports, records, ev, domain, tag, cho
             diff = [n for n, (a, w) in enumerate(zip(r["args"] + [None] * 10, want)) if a != w]
             names = ["argv0", "dashdash", "user", "homedir", "local", "dash", "ext", "domain", "sender", "defaultdelivery"]
             key = "C11/%s/wrong-%s/%s" % (tag, names[diff[0]] if diff else "argc", t.via)
-            ch = chosen.get(idx)
-            if ch is not None and ch.kind == b"+" and ch.loc[-1:].isupper():
+            if chosen.get("entries") is not None and upper_wild_defect(chosen["entries"], local, rep, recs):
                 key = "C11/assign/wildcard-uppercase-last-char-ignored"
             wit["want_args"] = [core.hx(a) for a in want]
             res.violate(key, "argv differs from the model (%s)" % t.via, wit)
@@ -507,6 +506,22 @@ def judge(res, box, ctx, locals_, expect, reports, records, ev, domain, tag, cho
     for idx in records:
         if idx < 0 or idx >= len(locals_):
             res.violate("C11/%s/unexpected-delivery" % tag, "a qmail-local run that matches no command", dict(ctx))
+
+
+def upper_wild_defect(entries, local, rep, recs):
+    """True iff the observed outcome is exactly what the (repaired) defect 0f89315 produced: a
+    wildcard whose loc ends in an upper-case letter is unreachable unless some wildcard ends in the
+    lower-case letter as written.  Used only to give that known class its stable key."""
+    written = {e.loc[-1:] for e in entries if e.kind == b"+" and e.loc}
+    reach = [e for e in entries if not (e.kind == b"+" and e.loc and um.lower(e.loc)[-1:] not in written)]
+    d, m = um.assign_lookup(reach, local), um.assign_lookup(entries, local)
+    if d == m:
+        return False
+    if d is None:
+        return True           # falls through to the passwd rules instead of the table entry
+    if recs:
+        return recs[0]["args"][2:7] == [d.user, d.home, local, d.dash, d.ext]
+    return um.expectation(d)[0] != "deliver" and rep[:1] == b"Z"
 
 
 def expect_of(t, why_none="lookup"):
@@ -648,11 +663,12 @@ def run_case(res, box, i, tier):
             if (ct is None) != (st is None) or (ct is not None and st is not None and
                                                  (isinstance(ct, Exception) or ct[:6] != st[:6])):
                 key = "C11/newu/compiled-differs-from-source"
-                ch = chosen.get(idx)
-                if ch is not None and ch.kind == b"+" and ch.loc[-1:].isupper():
+                if upper_wild_defect(entries, l, b"", []) and ct is None:
                     key = "C11/assign/wildcard-uppercase-last-char-ignored"
                 res.violate(key, "users/cdb (independent reader) says %r, users/assign says %r" % (ct, st),
                             dict(ctx, local=core.hx(l)))
+    if mode != "nocdb":
+        chosen["entries"] = entries
     reports, records, ev, problem = box.lspawn(locals_, domain)
     if problem:
         res.inconclusive.append("case %d: %s" % (i, problem))
@@ -666,6 +682,7 @@ def run_case(res, box, i, tier):
     if mode == "table" and compiled is not None and i % 3 == 0:
         hit = [l for idx, l in enumerate(locals_) if idx in chosen]
         miss = [l for idx, l in enumerate(locals_) if idx not in chosen and l]
+        chosen = {}
         probe = (hit[:7] + miss[:3])[:10]
         if probe:
             keys = [b""] + [b"!" + um.lower(l) + b"\0" for l in probe] + [b"!" + um.lower(e.loc) for e in entries if e.kind == b"+"]
@@ -738,7 +755,7 @@ def main(tier):
     b = build.vbuild("asan")
     hc = b.compile_harness(os.path.join(core.VERIF, "harness/h_cdb.c"), extra_objs=CDB_OBJS)
     ntab = core.scaled(48000 if tier == "quick" else 1600000)
-    ncase = core.scaled(200 if tier == "quick" else 5000)
+    ncase = core.scaled(1500 if tier == "quick" else 30000)
     jobs = [["rand", max(1, ntab // 32), core.seed() * 100000 + j] for j in range(32)]
     res = hrun.run_many(hc, jobs, b.env(), timeout=1800)
     res.counters["cdb_lookups"] = res.evaluations
